@@ -191,8 +191,20 @@ fn type_id_of(ty: u8) -> TypeId {
 fn ty_of_type_id(t: TypeId) -> Option<u8> {
     (0..NTY).find(|ty| type_id_of(*ty) == t)
 }
+/// the real dynamic id behind the logical one: 0 and 1 are themselves; logical id 2 is a large
+/// id chosen per type so that `std-hash(TypeId) + id` (wrapping) is the *same* number for every type —
+/// slots of different types must stay independent whatever arithmetic a lookup key is built with
+fn real_dyn(ty: u8, dy: u64) -> u64 {
+    if dy != 2 {
+        return dy;
+    }
+    use std::hash::{Hash, Hasher};
+    let mut h = std::collections::hash_map::DefaultHasher::new();
+    type_id_of(ty).hash(&mut h);
+    0x5EED_0000_0000_0002u64.wrapping_sub(h.finish())
+}
 fn rid(k: Key) -> ResourceId {
-    by_ty!(k.0, T => ResourceId::new_with_dynamic_id::<T>(k.1))
+    by_ty!(k.0, T => ResourceId::new_with_dynamic_id::<T>(real_dyn(k.0, k.1)))
 }
 fn all_keys() -> Vec<Key> {
     let mut v = vec![];
